@@ -235,6 +235,20 @@ func (m *TransferShare) handlerTransferShares(
 	}
 	EmitEvent(evm, data, topic)
 
+	// a transfer to oneself moves nothing: the rewards have been settled above, the
+	// delegation must be left as it is (the bookkeeping below works on two copies of
+	// the same record and would add the shares without removing them)
+	if from == to {
+		token := validator.TokensFromShares(shares).TruncateInt()
+		afterDelBalance := m.bankKeeper.GetBalance(ctx, withdrawAddr, m.stakingDenom)
+		data, topic, err = m.NewTransferShareEvent(from, to, valAddr.String(), shares.TruncateInt().BigInt(), token.BigInt())
+		if err != nil {
+			return nil, nil, err
+		}
+		EmitEvent(evm, data, topic)
+		return token.BigInt(), afterDelBalance.Sub(beforeDelBalance).Amount.BigInt(), nil
+	}
+
 	// get to delegation
 	toDel, err := m.stakingKeeper.GetDelegation(ctx, to.Bytes(), valAddr)
 	toDelFound := false
